@@ -16,7 +16,7 @@ NOT_DECIDED = "TWAP values themselves (C18); numeric exactness beyond formula id
 VAMM = "margined_vamm"
 
 
-def is_last_of_list(ix, v):
+def is_last_of_list(ix, v, loaded=True):
     """v is the LAST element of a stored vAMM-map's cumulative_premium_fractions list: list[len(list) - 1] or list.last()"""
     vi = ix.inline(v)
 
@@ -41,7 +41,8 @@ def is_last_of_list(ix, v):
     lst = ix.inline(kids(vi)[0])
 
     def is_list(x):
-        return tag(x) == "field" and payload(x)[0] == "cumulative_premium_fractions" and guards.loaded_item(ix, kids(x)[0], ENG) == VMAP
+        # loaded=False: the list of whatever map value is being updated (a `&mut VammMap` parameter of an update closure)
+        return tag(x) == "field" and payload(x)[0] == "cumulative_premium_fractions" and (not loaded or guards.loaded_item(ix, kids(x)[0], ENG) == VMAP)
     if not is_list(lst):
         return False
     if nm == "last":
@@ -308,8 +309,8 @@ def run(ctx):
                 return tag(v) == "param" or (tag(v) == "field" and tag(kids(v)[0]) == "param" and f.kind == "Closure" and payload(kids(v)[0])[1] == 0)
 
             def is_last(v):
-                sh = sym.show(ix.inline(v), 5)
-                return "Index::index" in sh or "::last(" in sh or sh.startswith("last(")
+                # list[len - 1] / list.last() of the stored list (not just any index)
+                return is_last_of_list(ix, v, loaded=False)
             for p in oks:
                 for e in p.events:
                     if e.name == "std::vec::Vec::push" and any("cumulative_premium_fractions" in sym.show(x, 6) for x in e.raw[:1] + e.args[:1]):
